@@ -32,7 +32,21 @@ def main():
     os.makedirs(common.CASES, exist_ok=True)
     mod = importlib.import_module("harness.props." + prop_id.lower())
     rep = common.Report(prop_id, tier, seed)
-    return mod.run(rep, tier, seed)
+    try:
+        return mod.run(rep, tier, seed)
+    except Exception:  # noqa: BLE001
+        # The harness itself fell over -- typically because the implementation did something none of the drivers
+        # expects (an exception of a new kind while objects are being built, a changed signature). The property is
+        # then not shown to hold: say so in the agreed form instead of dying with a traceback.
+        import traceback
+        tb = traceback.format_exc()
+        sys.stderr.write(tb)
+        rep.violation("%s:harness-exception" % prop_id,
+                      "the check could not be completed: %s" % tb.strip().splitlines()[-1][:300],
+                      {"kind": "harness-exception", "traceback": tb[-4000:],
+                       "theorem": "all of Props/%s.v (the correspondence could not be run to its end)" % prop_id},
+                      found_input=False)
+        return rep.finish()
 
 
 if __name__ == "__main__":
